@@ -362,6 +362,7 @@ func (e *Engine) verifyFunctionOnce(ct *Contract, prop string, tier string) *fnR
 	e.curFn = ct.Fn
 	e.callbacksWriteDB = false
 	e.dropAtBound = false
+	inputDecls.Range(func(k, _ interface{}) bool { inputDecls.Delete(k); return true })
 	e.noDBInv = ct.Flags["nodbinv"] != ""
 	e.loopsSeen = map[string]bool{}
 	e.dbErrors = true
@@ -761,11 +762,19 @@ func (e *Engine) verifyFunctionOnce(ct *Contract, prop string, tier string) *fnR
 				}
 			}
 			if rs[j].Status != "unsat" {
+				wasError, errRaw := rs[j].Status == "error", rs[j].Raw
 				vals := append(modelTerms(v.ex, v.pre), v.extra...)
 				rm := e.solver.model("z3-new", v.header, gs[j], vals, e.goalTimeout)
 				if rm.Status == "sat" {
 					rs[j].Status = "sat"
 					rs[j].Model = rm.Model
+				} else if rm.Status == "error" || wasError {
+					// the script itself is malformed (an engine defect): never a verdict about the code
+					rs[j].Status = "error"
+					if errRaw == "" {
+						errRaw = strings.SplitN(strings.TrimSpace(rm.Raw), "\n", 2)[0]
+					}
+					rs[j].Raw = errRaw
 				} else if rs[j].Status != "sat" {
 					rs[j].Status = "unknown"
 				}
@@ -794,6 +803,10 @@ func (e *Engine) verifyFunctionOnce(ct *Contract, prop string, tier string) *fnR
 				continue
 			}
 			if o.Status == "broken" {
+				continue
+			}
+			if r.Status == "error" {
+				o.Status, o.Detail = "broken", "solver rejected the generated script: "+truncate(r.Raw, 200)
 				continue
 			}
 			if r.Status == "sat" {
